@@ -4,7 +4,8 @@ import ast, os, shutil, subprocess, sys, tempfile, importlib, json
 sys.path.insert(0, os.path.dirname(os.path.dirname(os.path.abspath(__file__))))
 from sa import srcmodel, selftest, report
 EVERY = "--all" in sys.argv
-props = [a for a in sys.argv[1:] if a != "--all"] or [f"C{i:02d}" for i in range(1, 21)]
+KIND = next((a.split("=")[1] for a in sys.argv if a.startswith("--kind=")), "rename-locals")
+props = [a for a in sys.argv[1:] if not a.startswith("--")] or [f"C{i:02d}" for i in range(1, 21)]
 m = srcmodel.Model()
 for p in props:
     rule = importlib.import_module(f"sa.rules.{p.lower()}")
@@ -16,14 +17,14 @@ for p in props:
         for mn in mods:
             mod = m.modules[mn]
             path = os.path.join(tmp, os.path.relpath(mod.path, "/repo"))
-            tree = ast.parse(mod.source); selftest._rename_locals(tree, every=EVERY)
-            open(path, "w").write(ast.unparse(ast.fix_missing_locations(tree)) + "\n")
+            tree = ast.parse(mod.source); (selftest._rename_locals(tree, every=EVERY) if KIND == "rename-locals" else selftest.TWINS[KIND](tree))
+            src_new = ast.unparse(ast.fix_missing_locations(tree)) + "\n"; compile(src_new, path, "exec"); open(path, "w").write(src_new)
         m2 = srcmodel.Model(tmp + "/src")
         ctx2 = report.Ctx(p, "quick", m2)
         try:
             rule.run(ctx2)
             bad = [o for o in ctx2.obs if not o.ok]
-            print(f"== {p}: {len(bad)} failing obligations on the rename twin")
+            print(f"== {p}: {len(bad)} failing obligations on the {KIND} twin")
             for o in bad:
                 print(f"   {o.rule} | {o.construct.split('.')[-2:]} | {o.detail[:90]} :: {o.msg[:110]}")
         except Exception as e:
